@@ -307,7 +307,9 @@ def fork_join_ir(draw, items=False, retry=False, split=None):
         for i, nm in enumerate(chain):
             t = {"action": "core.act", "next": [], "input": {"who": nm}}
             if i < ln - 1:
-                t["next"].append({"when": E(["true"], lng), "do": [chain[i + 1]], "publish": []})
+                # a publish early in a long branch: published first, arrives last
+                early = [[draw(st.sampled_from(POOL)), "early@%s" % nm]] if draw(st.booleans()) else []
+                t["next"].append({"when": E(["true"], lng), "do": [chain[i + 1]], "publish": early})
             else:
                 mode = draw(st.sampled_from(["always", "always", "succeeded", "succeeded", "failed", "completed", "code", "never", "twice", "handler"]))
                 pub = [[draw(st.sampled_from(POOL)), "pub@%s" % nm]] if draw(st.booleans()) else []
